@@ -30,6 +30,7 @@ var (
 	vfProvKeyOnce sync.Once
 	vfProvKey     *rsa.PrivateKey
 	vfOtherKey    *rsa.PrivateKey // a key the provider does NOT publish
+	vfProvKey2    *rsa.PrivateKey // the provider's second published key (providers publish several during a key roll-over)
 )
 
 func vfProviderKeys() (*rsa.PrivateKey, *rsa.PrivateKey) {
@@ -39,6 +40,9 @@ func vfProviderKeys() (*rsa.PrivateKey, *rsa.PrivateKey) {
 			panic(err)
 		}
 		if vfOtherKey, err = rsa.GenerateKey(rand.Reader, 2048); err != nil {
+			panic(err)
+		}
+		if vfProvKey2, err = rsa.GenerateKey(rand.Reader, 2048); err != nil {
 			panic(err)
 		}
 	})
@@ -66,7 +70,33 @@ type vfTokSpec struct {
 	NoFlavour bool          `json:"no_flavour,omitempty"` // no provider-specific extra claims
 }
 
+// the provider's FIRST published key can be rotated (action reconf / rotate_keys): a new key under a new key ID takes its
+// place, and tokens signed with a retired key are no longer verifiable by instances that load the key set afterwards.
+// Process-wide (cases run one after the other; vfNewWorld resets it)
+var (
+	vfKey1Cur   *rsa.PrivateKey
+	vfKid1Cur   = "vf-key-1"
+	vfKidsGone  = map[string]bool{}
+	vfRotations int
+)
+
+func vfResetRotation() {
+	key, _ := vfProviderKeys()
+	vfKey1Cur, vfKid1Cur, vfKidsGone = key, "vf-key-1", map[string]bool{}
+}
+
+func vfRotateKey1() {
+	k, err := rsa.GenerateKey(rand.Reader, 2048)
+	if err != nil {
+		panic(err)
+	}
+	vfRotations++
+	vfKidsGone[vfKid1Cur] = true
+	vfKey1Cur, vfKid1Cur = k, fmt.Sprintf("vf-key-1-r%d", vfRotations)
+}
+
 type vfMinted struct {
+	Kid   string
 	Token string
 	Spec  vfTokSpec
 	Exp   int64 // unix seconds
@@ -158,7 +188,20 @@ func vfMintToken(issuer, clientID string, spec vfTokSpec, r *vfRand) vfMinted {
 			claims["pad"] = strings.Repeat("abcdefgh", spec.Pad/8+1)[:spec.Pad]
 		}
 	}
-	hdr, _ := json.Marshal(map[string]interface{}{"alg": "RS256", "typ": "JWT", "kid": "vf-key-1"})
+	// the provider signs with either of its two published keys (which one depends on the token's subject and e-mail)
+	if vfKey1Cur == nil {
+		vfResetRotation()
+	}
+	kid := vfKid1Cur
+	key = vfKey1Cur
+	hsum := 0
+	for _, ch := range spec.Sub + fmt.Sprint(spec.Email) {
+		hsum = hsum*31 + int(ch)
+	}
+	if hsum%3 == 1 {
+		kid, key = "vf-key-2", vfProvKey2
+	}
+	hdr, _ := json.Marshal(map[string]interface{}{"alg": "RS256", "typ": "JWT", "kid": kid})
 	pl, _ := json.Marshal(claims)
 	signing := vfB64(hdr) + "." + vfB64(pl)
 	h := sha256.Sum256([]byte(signing))
@@ -170,7 +213,7 @@ func vfMintToken(issuer, clientID string, spec vfTokSpec, r *vfRand) vfMinted {
 	if err != nil {
 		panic(err)
 	}
-	return vfMinted{Token: signing + "." + vfB64(sig), Spec: spec, Exp: exp, Iat: iat, Nbf: nbfp}
+	return vfMinted{Kid: kid, Token: signing + "." + vfB64(sig), Spec: spec, Exp: exp, Iat: iat, Nbf: nbfp}
 }
 
 // ---- the provider
@@ -231,11 +274,29 @@ type vfProvider struct {
 	// a token endpoint behind a gateway that answers with redirects and keeps the transaction in a cookie: /token stores the
 	// form, sets the cookie and redirects to /token/wait (which lets other transactions arrive for txnWait), which redirects
 	// to /token/finish, which answers the transaction named by the cookie it is shown
+	// the root tenant's endpoints as published NOW (a provider may move them between two metadata refreshes of a client)
+	authPath  string   // "" = /authorize
+	endPath   string   // "" = /logout
+	authPaths []string // every authorization path ever published
 	txnRedirect bool
 	txnWait     time.Duration
 	txnSeq      int
 	txnForms    map[string]url.Values
 	txnArrivals int
+}
+
+func (p *vfProvider) authPathNow() string {
+	if p.authPath == "" {
+		return "/authorize"
+	}
+	return p.authPath
+}
+
+func (p *vfProvider) endPathNow() string {
+	if p.endPath == "" {
+		return "/logout"
+	}
+	return p.endPath
 }
 
 // what the provider answered to a token-endpoint call (the model's `ans` input)
@@ -253,14 +314,17 @@ func vfNewProvider(clientID string, endSession bool, r *vfRand) *vfProvider {
 		p.mu.Lock()
 		p.discHits++
 		p.mu.Unlock()
+		p.mu.Lock()
+		ap, ep, es := p.authPathNow(), p.endPathNow(), p.endSession
+		p.mu.Unlock()
 		doc := map[string]string{
 			"issuer":                 p.issuer,
-			"authorization_endpoint": p.issuer + "/authorize",
+			"authorization_endpoint": p.issuer + ap,
 			"token_endpoint":         p.issuer + "/token",
 			"jwks_uri":               p.issuer + "/jwks",
 		}
-		if p.endSession {
-			doc["end_session_endpoint"] = p.issuer + "/logout"
+		if es {
+			doc["end_session_endpoint"] = p.issuer + ep
 		}
 		if p.revocation != "" {
 			doc["revocation_endpoint"] = p.issuer + "/revoke"
@@ -300,11 +364,19 @@ func vfNewProvider(clientID string, endSession bool, r *vfRand) *vfProvider {
 			}
 			<-gate
 		}
-		key, _ := vfProviderKeys()
-		jwk := map[string]string{"kty": "RSA", "kid": "vf-key-1", "use": "sig", "alg": "RS256",
+		vfProviderKeys()
+		p.mu.Lock()
+		if vfKey1Cur == nil {
+			vfResetRotation()
+		}
+		key, kid1 := vfKey1Cur, vfKid1Cur
+		p.mu.Unlock()
+		jwk := map[string]string{"kty": "RSA", "kid": kid1, "use": "sig", "alg": "RS256",
 			"n": vfB64(key.N.Bytes()), "e": vfB64(big.NewInt(int64(key.E)).Bytes())}
+		jwk2 := map[string]string{"kty": "RSA", "kid": "vf-key-2", "use": "sig", "alg": "RS256",
+			"n": vfB64(vfProvKey2.N.Bytes()), "e": vfB64(big.NewInt(int64(vfProvKey2.E)).Bytes())}
 		w.Header().Set("Content-Type", "application/json")
-		json.NewEncoder(w).Encode(map[string]interface{}{"keys": []interface{}{jwk}})
+		json.NewEncoder(w).Encode(map[string]interface{}{"keys": []interface{}{jwk, jwk2}})
 	})
 	mux.HandleFunc("/token", p.handleToken)
 	mux.HandleFunc("/token/finish", p.handleToken)
@@ -454,6 +526,18 @@ func (p *vfProvider) handleToken(w http.ResponseWriter, req *http.Request) {
 	}
 	if req.Form.Get("client_id") != p.clientID {
 		p.fail(w, 401, "invalid_client", false)
+		return
+	}
+	if sc.Kind == "html_error" || sc.Kind == "html_error_401" {
+		// a gateway / WAF in front of the token endpoint answers with its own HTML page that repeats what was submitted
+		p.answers = append(p.answers, vfProvAnswer{OK: false})
+		w.Header().Set("Content-Type", "text/html; charset=utf-8")
+		if sc.Kind == "html_error" {
+			w.WriteHeader(400)
+		} else {
+			w.WriteHeader(401)
+		}
+		fmt.Fprintf(w, "<html><body><h1>Request blocked</h1><p>code=%s refresh_token=%s</p></body></html>", call.Code, call.RefreshToken)
 		return
 	}
 	nonce := interface{}(nil)
